@@ -3,6 +3,7 @@
 package main
 
 import (
+	"encoding/base64"
 	"fmt"
 	"strings"
 	"time"
@@ -16,7 +17,7 @@ import (
 func init() { vfDrivers["C04"] = &vfDriver{Run: vfC04, QuickRuns: 500} }
 
 type vfC04Token struct {
-	Key, Iss, Aud, Exp, Verified, Values, Missing string
+	Key, Iss, Aud, Aud2, Exp, Verified, Values, Missing string
 	Accept                                        bool // should_accept, computed from the construction parameters
 	Either                                        bool // boundary cases the statement leaves open
 	Reason                                        string
@@ -24,7 +25,7 @@ type vfC04Token struct {
 
 type vfC04Case struct {
 	Keys, AudClaim, ExtraAud, EmailClaim, GroupsClaim string
-	AllowUnverified                                   bool
+	AllowUnverified, ExtraIssuer                      bool
 	Store                                             string
 	Tokens                                            int
 	Accepted                                          map[string]int
@@ -54,7 +55,10 @@ func vfC04(w *vfWorld) {
 	if cs.Keys != "discovery" {
 		idp.Signing = 2 // without discovery only RS256 is expected
 	}
-	cs.AudClaim = vfPick(t, "c04.audclaim", []string{"aud", "aud", "azp"})
+	// one audience claim, or a list: the first configured claim that the token carries decides
+	cs.AudClaim = vfPick(t, "c04.audclaim", []string{"aud", "aud", "azp", "aud,azp", "azp,aud"})
+	audClaims := strings.Split(cs.AudClaim, ",")
+	primaryAud := audClaims[0]
 	if cs.AudClaim != "aud" {
 		cfg.Extra = append(cfg.Extra, "--oidc-audience-claim="+cs.AudClaim)
 	}
@@ -73,6 +77,15 @@ func vfC04(w *vfWorld) {
 	cs.AllowUnverified = t.Prob("c04.allowunverified", 250)
 	if cs.AllowUnverified {
 		cfg.Extra = append(cfg.Extra, "--insecure-oidc-allow-unverified-email=true")
+	}
+	// a second, independent issuer whose tokens are accepted as bearer credentials for ITS audience only
+	// (--extra-jwt-issuers=issuer=audience); it signs with key 3, which the main issuer does not publish
+	idp2 := w.StartIdPAt("idp2.sim", 3)
+	idp2.IDTokenTTL = 30 * time.Hour
+	const aud2 = "partner-api"
+	cs.ExtraIssuer = t.Prob("c04.extraissuer", 450)
+	if cs.ExtraIssuer {
+		cfg.Extra = append(cfg.Extra, "--extra-jwt-issuers="+idp2.issuer+"="+aud2)
 	}
 	reps := w.Standard(cfg, 1)
 	rep := reps[0]
@@ -161,9 +174,17 @@ func vfC04(w *vfWorld) {
 			aud = nil
 		}
 		if aud != nil {
-			claims[cs.AudClaim] = aud
+			claims[primaryAud] = aud
 		}
-		if cs.AudClaim != "aud" {
+		if len(audClaims) > 1 {
+			// the second configured claim says something of its own; it may only matter when the first is absent
+			switch tk.Aud2 {
+			case "client":
+				claims[audClaims[1]] = vfClientID
+			case "other":
+				claims[audClaims[1]] = "someone-else"
+			}
+		} else if primaryAud != "aud" {
 			claims["aud"] = "irrelevant-when-a-custom-claim-is-configured"
 			if tk.Aud == "absent" {
 				delete(claims, "aud") // go-oidc needs no aud (client id check is skipped)
@@ -215,6 +236,7 @@ func vfC04(w *vfWorld) {
 		tk.Key = []string{"right", "second-published", "foreign", "none", "hs256-pub", "foreign-key-known-kid"}[t.Weighted("c04.key", 10, 2, 2, 1, 1, 1)]
 		tk.Iss = []string{"right", "other", "suffix", "prefix", "case"}[t.Weighted("c04.iss", 12, 1, 1, 1, 1)]
 		tk.Aud = []string{"client", "list-with-client", "extra", "list-without-client", "other", "prefix", "number", "absent"}[t.Weighted("c04.aud", 8, 3, 2, 1, 1, 1, 1, 1)]
+		tk.Aud2 = []string{"absent", "client", "other"}[t.Weighted("c04.aud2", 2, 3, 2)]
 		tk.Exp = []string{"future", "past", "just-past", "boundary"}[t.Weighted("c04.exp", 12, 2, 1, 1)]
 		tk.Verified = []string{"true", "absent", "false", "string-true", "string-false"}[t.Weighted("c04.verified", 8, 2, 2, 1, 1)]
 		tk.Values = []string{"plain", "unicode", "single-group-string", "no-groups", "empty-groups"}[t.Weighted("c04.values", 8, 2, 1, 1, 2)]
@@ -234,6 +256,11 @@ func vfC04(w *vfWorld) {
 			if cs.ExtraAud == "" {
 				why("audience is an extra audience that is not configured")
 			}
+		case "absent":
+			if len(audClaims) > 1 && tk.Aud2 == "client" {
+				break // the first configured claim is absent, the second one names this client
+			}
+			why("audience absent")
 		default:
 			why("audience " + tk.Aud)
 		}
@@ -289,13 +316,26 @@ func vfC04(w *vfWorld) {
 			return
 		}
 		if accepted && !tk.Accept {
-			w.violate("C04", "bad-token-accepted", path+"/"+strings.SplitN(tk.Reason, ";", 2)[0], "%s path: a session was created from a token that must be refused (%s) [key=%s iss=%s aud=%s exp=%s verified=%s; config keys=%s aud-claim=%s extra-aud=%q allow-unverified=%v] %s",
-				path, tk.Reason, tk.Key, tk.Iss, tk.Aud, tk.Exp, tk.Verified, cs.Keys, cs.AudClaim, cs.ExtraAud, cs.AllowUnverified, detail)
+			w.violate("C04", "bad-token-accepted", path+"/"+strings.SplitN(tk.Reason, ";", 2)[0], "%s path: a session was created from a token that must be refused (%s) [key=%s iss=%s aud=%s/%s exp=%s verified=%s; config keys=%s aud-claim=%s extra-aud=%q allow-unverified=%v] %s",
+				path, tk.Reason, tk.Key, tk.Iss, tk.Aud, tk.Aud2, tk.Exp, tk.Verified, cs.Keys, cs.AudClaim, cs.ExtraAud, cs.AllowUnverified, detail)
 		}
 		if !accepted && tk.Accept {
 			w.violate("C04", "good-token-refused", path, "%s path: a token satisfying every clause was refused [key=%s iss=%s aud=%s exp=%s verified=%s values=%s missing=%s; config keys=%s aud-claim=%s email-claim=%s] %s",
 				path, tk.Key, tk.Iss, tk.Aud, tk.Exp, tk.Verified, tk.Values, tk.Missing, cs.Keys, cs.AudClaim, cs.EmailClaim, detail)
 		}
+	}
+	// a bearer token may travel as "Bearer <jwt>" or masquerade in Basic credentials (user, user + magic password,
+	// password): the carrier must not change the verdict
+	carry := func(tok string) string {
+		switch t.Weighted("c04.carrier", 7, 1, 1, 1) {
+		case 1:
+			return "Basic " + base64.StdEncoding.EncodeToString([]byte(tok+":x-oauth-basic"))
+		case 2:
+			return "Basic " + base64.StdEncoding.EncodeToString([]byte(tok+":"))
+		case 3:
+			return "Basic " + base64.StdEncoding.EncodeToString([]byte("anyone:"+tok))
+		}
+		return "Bearer " + tok
 	}
 	honest := &vfC04Token{Key: "right", Iss: "right", Aud: "client", Exp: "future", Verified: "true", Values: "plain", Accept: true}
 	idp.Mint = func(m *vfMintCtx) {
@@ -307,7 +347,7 @@ func vfC04(w *vfWorld) {
 	ntok := 12 + t.Choice("c04.ntok", 12)
 	for i := 0; i < ntok; i++ {
 		tk := draw()
-		path := []string{"redeem", "refresh", "bearer"}[t.Choice("c04.path", 3)]
+		path := []string{"redeem", "refresh", "bearer", "bearer2"}[t.Weighted("c04.path", 4, 4, 4, 3)]
 		nb++
 		b := w.NewBrowser(fmt.Sprintf("B%d", nb), "192.0.2.7:4711")
 		w.logf("c04", "token #%d via %s: key=%s iss=%s aud=%s exp=%s verified=%s values=%s missing=%s => accept=%v either=%v", i, path, tk.Key, tk.Iss, tk.Aud, tk.Exp, tk.Verified, tk.Values, tk.Missing, tk.Accept, tk.Either)
@@ -361,11 +401,114 @@ func vfC04(w *vfWorld) {
 				w.nontriv = true
 				checkIdentity(r, path, id, tk)
 			}
+		case "bearer2":
+			// a bearer token of the second issuer: which issuer it names, whose key signed it and whose audience it
+			// carries are drawn independently
+			type t2 struct{ iss, key, aud, exp, verified string }
+			x := t2{
+				iss:      []string{"idp2", "idp1", "other"}[t.Weighted("c04.b2.iss", 6, 2, 1)],
+				key:      []string{"idp2", "idp1", "none"}[t.Weighted("c04.b2.key", 6, 2, 1)],
+				aud:      []string{"aud2", "list-with-aud2", "main-client", "extra", "other", "absent"}[t.Weighted("c04.b2.aud", 6, 2, 2, 1, 1, 1)],
+				exp:      []string{"future", "past"}[t.Weighted("c04.b2.exp", 8, 1)],
+				verified: []string{"true", "absent", "false"}[t.Weighted("c04.b2.verified", 6, 2, 1)],
+			}
+			if x.iss == "idp1" && x.key == "idp1" {
+				x.key = "idp2" // entirely the main issuer's token: that is the ordinary bearer path
+			}
+			tk = &vfC04Token{Key: x.key, Iss: x.iss, Aud: x.aud, Exp: x.exp, Verified: x.verified, Values: "plain"}
+			ok := true
+			why := func(s string) { ok = false; tk.Reason += s + ";" }
+			if !cs.ExtraIssuer {
+				why("no extra issuer is configured")
+			}
+			// the token must name the issuer whose key signed it, and that issuer must be idp2 here (a token that is
+			// entirely the main issuer's is the ordinary bearer path)
+			if x.iss != "idp2" || x.key != "idp2" {
+				why("issuer " + x.iss + " with a signature by " + x.key)
+			}
+			switch x.aud {
+			case "aud2", "list-with-aud2":
+			case "extra":
+				if cs.ExtraAud == "" {
+					why("audience is an extra audience that is not configured")
+				}
+			case "main-client":
+				// the statement says "the client ID"; the second issuer's audience is what the operator configured for
+				// it - a token of issuer 2 for the main client is not judged
+				tk.Either = true
+			default:
+				why("audience " + x.aud)
+			}
+			if x.exp == "past" {
+				why("expired")
+			}
+			if x.verified == "false" {
+				if cs.AllowUnverified {
+					tk.Either = true // the generic bearer loader has no allow-unverified switch: stricter than required
+				} else {
+					why("email_verified=false")
+				}
+			}
+			tk.Accept = ok
+			id := &ident{email: "alice@example.com", user: "sub-alice", pu: "alice.p", groups: []string{"dev", "ops"}}
+			tok := idp2.MintBearer("alice", func(c map[string]interface{}, so *vfSignOpt) {
+				switch x.iss {
+				case "idp1":
+					c["iss"] = iss
+				case "other":
+					c["iss"] = "http://evil.sim"
+				}
+				switch x.key {
+				case "idp1":
+					so.Key, so.Kid = idp.Signing, idp.keys[idp.Signing].Kid
+				case "none":
+					so.Alg = "none"
+				}
+				delete(c, "aud")
+				delete(c, "azp")
+				var aud interface{}
+				switch x.aud {
+				case "aud2":
+					aud = aud2
+				case "list-with-aud2":
+					aud = []string{"zzz", aud2}
+				case "main-client":
+					aud = vfClientID
+				case "extra":
+					aud = "partner-app"
+				case "other":
+					aud = "someone-else"
+				}
+				if aud != nil {
+					c[primaryAud] = aud
+				}
+				if primaryAud != "aud" && len(audClaims) == 1 {
+					c["aud"] = "irrelevant-when-a-custom-claim-is-configured"
+				}
+				if x.exp == "past" {
+					c["exp"] = time.Now().Add(-time.Hour).Unix()
+				}
+				delete(c, "email_verified")
+				switch x.verified {
+				case "true":
+					c["email_verified"] = true
+				case "false":
+					c["email_verified"] = false
+				}
+			})
+			w.logf("c04", "bearer2 token: iss=%s key=%s aud=%s exp=%s verified=%s => accept=%v either=%v", x.iss, x.key, x.aud, x.exp, x.verified, tk.Accept, tk.Either)
+			r := b.Do(rep, &vfReq{Method: "GET", Target: "/api/data2", NoJar: true, Headers: [][2]string{{"Authorization", carry(tok)}}})
+			judge(path, tk, served(r), fmt.Sprintf("(status %d; extra issuer configured=%v)", r.Status, cs.ExtraIssuer))
+			if served(r) {
+				w.nontriv = true
+				tk.Missing = "groups" // judged like the bearer path: token-borne e-mail only
+				checkIdentity(r, "bearer", id, tk)
+			}
 		case "bearer":
 			cur = tk
 			tok := idp.MintBearer("alice", func(c map[string]interface{}, so *vfSignOpt) { build(c, so) })
 			id := curIdent
-			r := b.Do(rep, &vfReq{Method: "GET", Target: "/api/data", NoJar: true, Headers: [][2]string{{"Authorization", "Bearer " + tok}}})
+			r := b.Do(rep, &vfReq{Method: "GET", Target: "/api/data", NoJar: true, Headers: [][2]string{{"Authorization", carry(tok)}}})
 			judge(path, tk, served(r), fmt.Sprintf("(status %d)", r.Status))
 			if served(r) {
 				w.nontriv = true
@@ -373,5 +516,5 @@ func vfC04(w *vfWorld) {
 			}
 		}
 	}
-	w.distKey = fmt.Sprintf("%s/%s/%s/%s/%v", cs.Keys, cs.AudClaim, cs.ExtraAud, cs.EmailClaim, cs.AllowUnverified)
+	w.distKey = fmt.Sprintf("%s/%s/%s/%s/%v/%v", cs.Keys, cs.AudClaim, cs.ExtraAud, cs.EmailClaim, cs.AllowUnverified, cs.ExtraIssuer)
 }
